@@ -6,6 +6,8 @@
      value that is encoded), and the NLRI encoders of bgp.rs (Ipv4Net, Ipv6Net),
      vpn.rs, labeled.rs, mpls.rs.  NLRI of the other families enter as their
      wire bytes ([NRaw]): their framing is modelled, their inner encoding is not.
+     Modelled structurally besides the prefix families: Flowspec (x4), RTC, EVPN route
+     types 1-5, SR Policy (x2), MUP route types 1-4 (x2), BGP-LS (TLV level).
 
    Bytes are [N] (< 256), buffers are [list N].  A message is encoded into a
    list of frames.  Machine arithmetic that can overflow is written through
@@ -147,6 +149,116 @@ Definition addpath_for (c : codec) (f : N) : bool :=
 Definition max_len (c : codec) : N := if ext_len c then 65535 else 4096.
 
 (* ---- NLRI *)
+(* ---- Flowspec (flowspec.rs): a rule is a list of components; prefix components (types 1, 2)
+   carry <length, [offset (IPv6 only)], ceil(length / 8) octets>, the others a list of
+   <operator, value> pairs written with the shortest of 1/2/4/8 value octets *)
+Inductive fcomp :=
+| FPrefix (ty mask off : N) (addr : list N)          (* [off] is written for IPv6 rules only *)
+| FOps (ty : N) (ops : list (N * N)).                (* Op { bits, value } *)
+
+Definition op_order (v : N) : N :=
+  if v <=? 255 then 0 else if v <=? 65535 then 1 else if v <=? 4294967295 then 2 else 3.
+Definition be64 (n : N) : list N := be32 ((n / 4294967296) mod 4294967296) ++ be32 (n mod 4294967296).
+Definition enc_op (o : N * N) : list N :=
+  let ord := op_order (snd o) in
+  N.lor (fst o) (ord * 16) ::
+  (if ord =? 0 then [snd o mod 256] else if ord =? 1 then be16 (snd o) else if ord =? 2 then be32 (snd o) else be64 (snd o)).
+
+Definition enc_fcomp (v6 : bool) (c : fcomp) : res (list N) :=
+  match c with
+  | FPrefix ty m off a =>
+      let n := (m + 7) / 8 in
+      if n <=? len a then Ok ([ty; m] ++ (if v6 then [off] else []) ++ firstn (N.to_nat n) a) else Panic
+  | FOps ty ops => Ok (ty :: flat_map enc_op ops)
+  end.
+Fixpoint enc_fcomps (v6 : bool) (l : list fcomp) : res (list N) :=
+  match l with
+  | [] => Ok []
+  | c :: t => b <- enc_fcomp v6 c ;; r <- enc_fcomps v6 t ;; Ok (b ++ r)
+  end.
+(* write_nlri_len: one octet below 240, else 0xF0 | (len >> 8) as u8, len & 0xFF *)
+Definition fs_len (n : N) : list N :=
+  if n <? 240 then [n] else [N.lor 240 ((n / 256) mod 256); n mod 256].
+
+(* ---- EVPN (evpn.rs): route types 1-5; labels are raw 24-bit fields *)
+Definition be24 (n : N) : list N := [(n / 65536) mod 256; (n / 256) mod 256; n mod 256].
+Inductive evpn :=
+| Ev1 (rd esi : list N) (etag label : N)
+| Ev2 (rd esi : list N) (etag : N) (mac : list N) (ip : list N) (label1 : N) (label2 : option N)   (* ip: 0, 4 or 16 octets *)
+| Ev3 (rd : list N) (etag : N) (ip : list N)
+| Ev4 (rd esi : list N) (ip : list N)
+| Ev5 (rd esi : list N) (etag plen : N) (ip gw : list N) (label : N).
+Definition ip_bits (ip : list N) : N := 8 * len ip.
+Definition enc_evpn (e : evpn) : list N :=
+  let '(ty, data) :=
+    match e with
+    | Ev1 rd esi etag l => (1, rd ++ esi ++ be32 etag ++ be24 l)
+    | Ev2 rd esi etag mac ip l1 l2 =>
+        (2, rd ++ esi ++ be32 etag ++ [48] ++ mac ++ [ip_bits ip] ++ ip ++ be24 l1 ++
+            match l2 with Some l => be24 l | None => [] end)
+    | Ev3 rd etag ip => (3, rd ++ be32 etag ++ [ip_bits ip] ++ ip)
+    | Ev4 rd esi ip => (4, rd ++ esi ++ [ip_bits ip] ++ ip)
+    | Ev5 rd esi etag plen ip gw l =>
+        (5, rd ++ esi ++ be32 etag ++ [plen] ++ ip ++ (if len gw =? len ip then gw else zeros (length ip)) ++ be24 l)
+    end in
+  [ty; trunc8 (len data)] ++ data.
+
+(* ---- RTC (rtc.rs) and SR Policy (sr_policy.rs) *)
+Inductive rtc := RtcAll | RtcAs (asn : N) | RtcExact (asn : N) (rt : list N).
+Definition enc_rtc (r : rtc) : list N :=
+  match r with
+  | RtcAll => [0]
+  | RtcAs a => [32] ++ be32 a
+  | RtcExact a rt => [96] ++ be32 a ++ rt
+  end.
+
+(* ---- BGP-LS (ls.rs): NLRI = <type (2), length (2), protocol id, identifier (8), descriptor TLVs>;
+   a TLV is <type (2), length (2), value> (write_tlv); the node descriptors sit in a container TLV
+   (256 local, 257 remote).  A descriptor is modelled as the pair <type, value octets> that the
+   struct field / enum variant is written as; node descriptor fields are written in type order. *)
+Definition enc_tlv16 (t : N * list N) : list N := be16 (fst t) ++ be16 (trunc16 (len (snd t))) ++ snd t.
+Inductive lsn :=
+| LsNode (proto id : N) (local : list (N * list N))
+| LsLink (proto id : N) (local remote link : list (N * list N))
+| LsPfx (v6 : bool) (proto id : N) (local pfx : list (N * list N))
+| LsSrv6 (proto id : N) (local : list (N * list N)) (sids : list (N * list N))    (* <multi-topology id, SID (16)> *)
+| LsOther (ty : N) (body : list N).
+Definition ls_container (c : N) (l : list (N * list N)) : list N := enc_tlv16 (c, flat_map enc_tlv16 l).
+Definition enc_ls (n : lsn) : list N :=
+  let '(ty, body) :=
+    match n with
+    | LsNode p i l => (1, p :: be64 i ++ ls_container 256 l)
+    | LsLink p i l r k => (2, p :: be64 i ++ ls_container 256 l ++ ls_container 257 r ++ flat_map enc_tlv16 k)
+    | LsPfx v6 p i l k => (if v6 then 4 else 3, p :: be64 i ++ ls_container 256 l ++ flat_map enc_tlv16 k)
+    | LsSrv6 p i l s =>
+        (6, p :: be64 i ++ ls_container 256 l ++ flat_map (fun x => enc_tlv16 (518, be16 (fst x) ++ [0; 0] ++ snd x)) s)
+    | LsOther t b => (t, b)
+    end in
+  be16 ty ++ be16 (trunc16 (len body)) ++ body.
+
+(* ---- MUP (mup.rs): architecture type 1 (3GPP-5G), route types 1-4 *)
+Inductive mup :=
+| Mup1 (rd : list N) (plen : N) (addr : list N)                                  (* Interwork Segment Discovery *)
+| Mup2 (rd addr : list N)                                                        (* Direct Segment Discovery *)
+| Mup3 (rd : list N) (plen : N) (addr : list N) (teid qfi : N) (ep : list N) (src : option (list N))   (* Type 1 ST *)
+| Mup4 (rd : list N) (ealen : N) (ep : list N) (teid : N).                       (* Type 2 ST *)
+(* encode_prefix: `&octets()[..byte_len.min(width)]` *)
+Definition mup_prefix (plen : N) (addr : list N) : list N :=
+  firstn (N.to_nat (N.min ((plen + 7) / 8) (len addr))) addr.
+Definition enc_mup (m : mup) : res (list N) :=
+  r <- (match m with
+        | Mup1 rd pl a => Ok (1, rd ++ [pl] ++ mup_prefix pl a)
+        | Mup2 rd a => Ok (2, rd ++ a)
+        | Mup3 rd pl a teid qfi ep src =>
+            Ok (3, rd ++ [pl] ++ mup_prefix pl a ++ be32 teid ++ [qfi] ++ [8 * len ep] ++ ep ++
+                   match src with None => [0] | Some s => [8 * len s] ++ s end)
+        | Mup4 rd el ep teid =>
+            (* `teid_be[..teid_bytes]`: slice panic past the four octets *)
+            let tb := ((el - 8 * len ep) + 7) / 8 in
+            if tb <=? 4 then Ok (4, rd ++ [el] ++ ep ++ firstn (N.to_nat tb) (be32 teid)) else Panic
+        end) ;;
+  Ok ([1] ++ be16 (fst r) ++ [trunc8 (len (snd r))] ++ snd r).
+
 Inductive nlri :=
 | NV4 (mask : N) (addr : list N)                               (* Ipv4Net; addr = 4 octets *)
 | NV6 (mask : N) (addr : list N)                               (* Ipv6Net; addr = 16 octets *)
@@ -154,6 +266,12 @@ Inductive nlri :=
 | NVpn6 (labels : list N) (rd : list N) (mask : N) (addr : list N)
 | NLab4 (labels : list N) (mask : N) (addr : list N)
 | NLab6 (labels : list N) (mask : N) (addr : list N)
+| NFlow (v6 : bool) (rd : option (list N)) (comps : list fcomp) (* Flowspec / Flowspec VPN, IPv4 / IPv6 *)
+| NRtc (r : rtc)
+| NEvpn (e : evpn)
+| NSrp (dist color : N) (endpoint : list N)                    (* SrPolicyNlri; endpoint = 4 or 16 octets *)
+| NMup (m : mup)
+| NLs (n : lsn)
 | NRaw (bytes : list N).                                       (* any other family: its wire bytes *)
 
 Definition pnlri : Type := N * nlri.     (* PathNlri { path_id, nlri } *)
@@ -189,6 +307,15 @@ Definition enc_nlri (p : profile) (n : nlri) : res (list N) :=
       bits <- add8 p (trunc8 (labels_len ls * 8)) m ;;
       o <- prefix_octets m a ;;
       Ok (bits :: enc_labels ls ++ o)
+  | NFlow v6 rd comps =>
+      body <- enc_fcomps v6 comps ;;
+      let full := (match rd with Some r => r | None => [] end) ++ body in
+      Ok (fs_len (len full) ++ full)
+  | NRtc r => Ok (enc_rtc r)
+  | NEvpn e => Ok (enc_evpn e)
+  | NSrp d c ep => Ok ([if len ep =? 4 then 96 else 192] ++ be32 d ++ be32 c ++ ep)
+  | NMup m => enc_mup m
+  | NLs n => Ok (enc_ls n)
   | NRaw b => Ok b
   end.
 
@@ -300,8 +427,10 @@ Definition attrs_2byte (a : attr) : res (list attr) :=
     | Some b =>
         segs <- segs_of b ;;
         let down := mk_bin 2 (flat_map enc_seg2 segs) in
-        if existsb seg_wide segs then
-          Ok [down; mk_bin 17 (flat_map enc_seg4 (filter (fun s => negb (seg_confed s)) segs))]
+        let stripped := filter (fun s => negb (seg_confed s)) segs in
+        (* no AS4_PATH when nothing is left after removing the confederation segments *)
+        if existsb seg_wide segs && (match stripped with [] => false | _ => true end) then
+          Ok [down; mk_bin 17 (flat_map enc_seg4 stripped)]
         else Ok [down]
     end
   else if a_code a =? 7 then
@@ -565,6 +694,19 @@ Definition bulk_entry (kind i : N) : pnlri :=
   | 6 => (i + 1, NV4 32 (10 :: b3 i))
   | 7 => (i + 1, NV6 128 ([32; 1; 13; 184] ++ b3 i ++ pat_bytes 9 i))
   | 8 => (i + 1, NVpn6 [100; 200] ([0; 2; 0; 1] ++ 0 :: b3 i) (64 + i mod 17) ([32; 1; 13; 184] ++ b3 i ++ pat_bytes 9 i))
+  | 9 => (i + 1, NEvpn (Ev2 ([0; 0; 253; 232] ++ 0 :: b3 i) (pat_bytes 10 i) i ([2; 0; 0] ++ b3 i)
+                            (if i mod 3 =? 0 then [] else if i mod 3 =? 1 then 10 :: b3 i else [32; 1; 13; 184] ++ b3 i ++ pat_bytes 9 i)
+                            (i mod 16777216) (if i mod 2 =? 0 then None else Some 200)))
+  | 10 => (i + 1, NFlow false None [FPrefix 1 24 0 (10 :: b3 i); FOps 4 [(1, i mod 65536); (129, 443)]])
+  | 11 => (i + 1, NRtc (RtcExact (65000 + i mod 100) ([0; 2; 253; 232] ++ 0 :: b3 i)))
+  | 12 => (i + 1, NSrp i (100 + i mod 3) (10 :: b3 i))
+  | 13 => (i + 1, NEvpn (Ev5 ([0; 2; 0; 1] ++ 0 :: b3 i) (pat_bytes 10 i) i (i mod 129)
+                             ([32; 1; 13; 184] ++ b3 i ++ pat_bytes 9 i) (pat_bytes 16 (i + 1)) 7))
+  | 16 => (i + 1, NLs (LsPfx false (1 + i mod 7) i [(512, be32 (65000 + i mod 9)); (515, pat_bytes 4 i)]
+                             [(263, be16 (i mod 4096)); (265, 24 :: b3 i)]))
+  | 15 => (i + 1, NMup (Mup3 ([0; 0; 253; 232] ++ 0 :: b3 i) (i mod 33) (10 :: b3 i) i (i mod 64) [192; 0; 2; 1]
+                              (if i mod 2 =? 0 then None else Some [198; 51; 100; 7])))
+  | 14 => (i + 1, NFlow true (Some ([0; 0; 253; 232] ++ 0 :: b3 i)) [FOps 3 [(129, 6)]; FOps 5 [(3, 1000 + i mod 50000); (197, 70000)]])
   | _ => (i + 1, NRaw (pat_bytes (N.to_nat (kind - 100)) i))
   end.
 Fixpoint bulk (kind : N) (n : nat) (start : N) : list pnlri :=
